@@ -760,7 +760,7 @@ pub fn c15(tier: &str, seed: u64) -> Vec<Case> {
         let mut wires: Vec<Vec<u8>> = vec![];
         let peers = r.range(1, 3) as usize;
         let mut has_empty_key = false;
-        let mut name_pool = vec!["printer", "Printer", "PRINTER", "Living-Room", "living-room", "x", "X", "a1_b", "n0"];
+        let mut name_pool = vec!["printer", "Printer", "PRINTER", "Living-Room", "living-room", "x", "X", "a1_b", "n0", "a23456789012345678901234567890123456789012345678901234567890123", "b2345678901234567890123456789012345678901234567890123456789012"];
         for _peer in 0..peers {
             // distinct names within a history; names equal up to letter case are distinct instances
             let iname = name_pool.remove(r.below(name_pool.len() as u64) as usize).to_string();
